@@ -384,7 +384,7 @@ func parseRaceLog(s string) []raceReport {
 }
 
 var reCrashHead = regexp.MustCompile(`(?m)^(fatal error: .*|panic: .*|SIGSEGV.*|==\d+==ERROR: AddressSanitizer.*|unexpected fault address.*)$`)
-var reLibFrame = regexp.MustCompile(`(?m)^(gopkg\.in/typ\.v4/[^\s(]+)`)
+var reLibFrame = regexp.MustCompile(`(?m)^(gopkg\.in/typ\.v4/.*)\([^()]*\)\s*$`)
 var reCreatedBy = regexp.MustCompile(`(?m)^created by (gopkg\.in/typ\.v4/[^\s]+)`)
 
 // crashSig summarises a process death: the first fatal line plus the first
@@ -417,6 +417,9 @@ func crashSig(stderr string) (string, string) {
 		created = ";created-by=" + strings.TrimPrefix(reGeneric.ReplaceAllString(m[1], ""), "gopkg.in/typ.v4/")
 	}
 	h := strings.ReplaceAll(head, " ", "-")
+	if i := strings.Index(h, "-[recovered]"); i > 0 {
+		h = h[:i]
+	}
 	return "crash:" + h + ";frames=" + strings.Join(frames, "<-") + created, head
 }
 
@@ -568,7 +571,7 @@ func (d *driver) runMode(m plan.Mode, st *modeStat) {
 						head = fmt.Sprintf("worker exited with status %d", oc.exit)
 					}
 					d.addViolation(core.Violation{Prop: d.prop, Mode: m.Name, Build: m.Build, Index: at, CaseSeed: oc.diedSeed, RunSeed: d.seed,
-						Sig: sig, Msg: "worker process died while running this case: " + head, Detail: detail})
+						Sig: sig + ";mode=" + m.Name, Msg: "worker process died while running this case: " + head, Detail: detail})
 				} else if kind == "outer-timeout" {
 					d.addInconclusive(fmt.Sprintf("mode=%s batch first=%d outer wall-clock guard fired", m.Name, j.first))
 				} else {
